@@ -43,7 +43,15 @@ theorem root_roundtrip_partial (pre : Bytes) (es : List (Bytes × Option Ploc))
   rootAt_encRoot_partial pre es hn hp hsz
 
 /-- root records round-trip for ARBITRARY collection names (every byte string: quotes, backslashes,
-    control bytes, `<>&`, U+2028/U+2029 and bytes >= 0x80 included) -/
+    control bytes, `<>&`, U+2028/U+2029 and bytes >= 0x80 included).
+
+    This is a theorem about the MODEL's codec, which passes bytes >= 0x80 through unchanged.  Go's
+    `encoding/json` does that only inside well-formed UTF-8 sequences and writes U+FFFD otherwise,
+    so for names that are not valid UTF-8 the model's codec is NOT the package's — and the package
+    lost such names on re-open (defect F18, found by asking exactly this question of this theorem).
+    Since the repair `Flush` refuses such names, so the codec is only ever applied to names on
+    which the two agree; the model's `flush` carries the same guard (`validUTF8`, `Model/AnyKey.lean`
+    and the driver), and profiles C02 and C12 generate such names. -/
 theorem root_roundtrip (pre : Bytes) (es : List (Bytes × Option Ploc))
     (hp : ∀ e ∈ es, ∀ q, e.2 = some q → ¬ (q.off = 0 ∧ q.len = 0))
     (hsz : pre.length + (encRoot pre.length es).length < 2^32) :
